@@ -760,13 +760,14 @@ package mq
 //@   requires len(kvPair) % 2 == 0
 //@   requires separate(*p, kvPair)                                                                               #C12
 //@   ensures len(*p) == old(len(*p)) + len(kvPair) / 2                                                          #C12
-//@   -- not claimed (solver does not finish): the appended pairs equal kvPair in order; see DESIGN.md C12
+//@   ensures forall k in 0..len(kvPair)/2: (*p)[old(len(*p))+k][0] == kvPair[2*k] && (*p)[old(len(*p))+k][1] == kvPair[2*k+1]   #C12
 //@   ensures forall k in 0..old(len(*p)): (*p)[k] == old((*p)[k])                                               #C12
 //@   loop 0:
 //@     invariant 0 <= i && i <= len(kvPair) && i % 2 == 0
 //@     invariant len(*p) == old(len(*p)) + i / 2                                                               #C12
 //@     invariant (base(*p) == old(base(*p)) && cap(*p) == old(cap(*p))) || base(*p) >= old($wm)                #C12
 //@     invariant forall k in 0..old(len(*p)): (*p)[k] == old((*p)[k])                                          #C12
+//@     invariant forall k in 0..i/2: (*p)[old(len(*p))+k][0] == kvPair[2*k] && (*p)[old(len(*p))+k][1] == kvPair[2*k+1]   #C12
 //@     assigns *p, capelems(*p)
 //@     decreases len(kvPair) - i
 
